@@ -494,7 +494,7 @@ func fail(t interface{ Fatalf(string, ...interface{}) }, name string, c *Case, m
 	t.Fatalf("%s", msg)
 }
 
-var timeFmts = []string{"", "UNIX", "UNIXMS", "UNIXMICRO", "UNIXNANO", time.RFC3339Nano, time.RFC1123Z}
+var timeFmts = []string{"", "UNIX", "UNIXMS", "UNIXMICRO", "UNIXNANO", time.RFC3339Nano, time.RFC1123Z, "é 2006-01-02T15:04:05.000000000Z07:00 €uro \"at\" Monday"}
 
 var arrayFamilies = []string{"str", "int", "float64", "bool", "time", "dur", "bytes", "hex", "uint64", "err"}
 
